@@ -295,13 +295,28 @@ class C20(Prop):
                 # physically meaningless, but not part of the property as
                 # stated (partition / equal flow / conservation / limit)
                 log.probe('c20.nonpositive_flow_distributed')
+            # type of every grouped assembly (rows of m are in assembly
+            # id order), from the generated world and not from the
+            # optimiser's own id/type table
+            names = list(orf['assemblies_to_group'])
+            own = np.array([names.index(p['type'])
+                            for p in spec['positions']
+                            if p and p['type'] in names])
+            if own.shape[0] != np.shape(m)[0]:
+                log.vio('flow.dp_limit', label,
+                        f'{np.shape(m)[0]} flows for {own.shape[0]} '
+                        f'assemblies to group', ['dp_limit', 'shape'])
+                own = obj._parametric['asm_ids'][:, 1]
+            elif not np.array_equal(own,
+                                    obj._parametric['asm_ids'][:, 1]):
+                log.probe('c20.type_table_differs')
             # pressure-drop limit
             lim = orf.get('pressure_drop_limit')
             if lim:
                 for i, dat in enumerate(obj._parametric['data']):
                     mlim = float(np.interp(lim * 1e6, dat[:, 3][::-1],
                                            dat[:, 2][::-1]))
-                    typ = obj._parametric['asm_ids'][:, 1] == i
+                    typ = own == i
                     over = m[typ] > mlim * (1 + 1e-9)
                     if np.any(over):
                         log.vio('flow.dp_limit', label,
@@ -313,7 +328,7 @@ class C20(Prop):
                     log.probe('c20.dp_limit_binds')
             log.last_m = np.array(m, copy=True)
             log.last_groups = g.copy()
-            log.types = np.array(obj._parametric['asm_ids'][:, 1], copy=True)
+            log.types = np.array(own, copy=True)
             return m, tlim
 
         fs = simenv.SimFS(plan=fs_plan, clock_jumps=clock, pool_plan=pool)
@@ -387,22 +402,34 @@ class C20(Prop):
         if log1.outcome == 'ok' and getattr(log1, 'param', None) \
                 and len(log1.param) > 1 and hasattr(log1, 'last_m') \
                 and not res['violations']:
-            g_last = int(np.max(log1.last_groups))
-            sel = log1.last_groups == g_last
-            types = set(int(t) for t in log1.types[sel])
-            if len(types) > 1:
-                m_last = float(log1.last_m[sel][0])
+            # candidate groups: the remainder group first, then up to two
+            # others (seeded choice), each holding more than one true type
+            gs = sorted(set(int(x) for x in log1.last_groups), reverse=True)
+            mixed = [k for k in gs if len(set(
+                int(t) for t in log1.types[log1.last_groups == k])) > 1]
+            ga = np.random.Generator(np.random.PCG64(
+                rng.h64('c20.adversarial', case['seed'])))
+            rest = [k for k in mixed if k != gs[0]]
+            pick = [k for k in mixed if k == gs[0]] + \
+                [rest[i] for i in ga.permutation(len(rest))[:2]]
+            for gk in pick:
+                if res['violations']:
+                    break
+                sel = log1.last_groups == gk
+                types = set(int(t) for t in log1.types[sel])
+                m_k = float(log1.last_m[sel][0])
                 dps = []
                 for t in sorted(types):
                     dat = log1.param[t]
                     o = np.argsort(dat[:, 2])
-                    dps.append(float(np.interp(m_last, dat[o, 2], dat[o, 3])))
+                    dps.append(float(np.interp(m_k, dat[o, 2], dat[o, 3])))
                 if max(dps) > 1.02 * min(dps) and min(dps) > 0:
                     dp2 = world._r(0.5 * (max(dps) + min(dps)) / 1e6, 8)
                     with sim.scratch_dir() as d:
                         log4 = self._optimize(case, d, dp_limit=dp2)
                     merge(log4)
-                    res['probes']['c20.adversarial_dp_run'] = 1
+                    res['probes']['c20.adversarial_dp_run'] = \
+                        res['probes'].get('c20.adversarial_dp_run', 0) + 1
         # second execution under ambient faults: same distribution
         if log1.outcome == 'ok' and not res['violations'] \
                 and hasattr(log1, 'last_m'):
